@@ -394,6 +394,10 @@ def must_edges(cfg: CFG, src: Node, dst: Node, limit: int = 20000) -> set[tuple[
                 continue
             ne = edges + (((n, lab),) if len(n.succ) > 1 else ())
             stack.append((s, seen | {s.id}, ne))
+    if result is not None:
+        # an `assert` never skips anything: its failing edge aborts the call. It is a fact for what follows (control
+        # dependence, guard atoms), not a condition under which a statement "does not run".
+        result = {(b, lab) for b, lab in result if not (b.kind == "test" and isinstance(b.owner, ast.Assert))}
     return result
 
 
